@@ -63,6 +63,19 @@ add("C19", "E2 textspace", "model_checking", "bounded-exhaustive enumeration of 
     "Every file of <=6 (thorough 7) lines over 14 line kinds (with and without final newline) and positional families around the 50-item window and late line-mapped methods: has_line_info, is_valid and the five summary fields must equal an independent fold over iter().",
     TEXT_NOTE + " The record stream itself is the subject of C05/C06.", "DESIGN.md §4 C19")
 
+add("C07", "E3 tracespace", "model_checking", "bounded-exhaustive enumeration of trace texts on the real mapper and cache vs a text model with an independent line classifier",
+    "Every text of <=4 (thorough 5) lines over 21 line shapes x 3 terminator policies x 3 mappings x {mapper, cache} is remapped by the real code and compared with the text model R12 (throwable first / cause prefix / frames / verbatim); with a mapping that knows none of the names the output must be the normalised input.",
+    TEXT_NOTE + " Trusted: the text model and line classifier in pgmc/src/props/e3.rs; str::lines splitting semantics.", "DESIGN.md §4 C07")
+add("C08", "E3 tracespace", "model_checking", "bounded-exhaustive enumeration of typed traces (levels x cause chains) on the real mapper and cache vs model R13 and vs the text API",
+    "Every typed trace over 105 top levels and cause chains up to depth 3 (thorough 4) x 2 mappings x {mapper, cache}: same depth, every throwable remapped-or-identical, every frame expanded-or-identical, nothing dropped; and the printed typed result must equal the text API's output on the printed input.",
+    TEXT_NOTE + " Canonical printed form as stated in the evidence assumptions.", "DESIGN.md §4 C08")
+add("C16", "E3 tracespace", "model_checking", "bounded-exhaustive enumeration of descriptors, all their single-character edits and all short strings, real mapper and cache vs an independent JVM descriptor parser",
+    "All 1813 (thorough 42k) descriptors over a 6- (8-)type alphabet, each single-character deletion/substitution/insertion over a 10-character alphabet, and all strings of <=6 (7) characters, x 3 mappings x {mapper, cache}: valid descriptors must give exactly the R14 parameter list, return type and formatted signature; strings without parenthesised list / return type / with an unterminated object type must give none; mapper == cache on every string.",
+    TEXT_NOTE + " Trusted: descriptor parser + R14 in pgmc/src/props/c16.rs.", "DESIGN.md §4 C16")
+add("C17", "E3 tracespace", "model_checking", "bounded-exhaustive enumeration of traces, frames and throwables; real printer and parser; round-trip oracle",
+    "28 throwables x 72 frames x top-level present/absent x 0..2 frames x cause chains up to depth 3 (4): parse(print(t)) == t and print(parse(print(t))) == print(t); single frames (3 indentations) and throwables likewise; frames without file: text fix-point.",
+    TEXT_NOTE + " Domain restrictions as in the evidence assumptions (taken from the statement).", "DESIGN.md §4 C17")
+
 manifest = {
     "version": 1,
     "setup_cmd": "mkdir -p target && (cd pgmc && CARGO_NET_OFFLINE=true cargo build --release --offline) && (test ! -f shim/getrandom_shim.c || gcc -O2 -shared -fPIC -o shim/getrandom_shim.so shim/getrandom_shim.c)",
@@ -76,6 +89,8 @@ manifest = {
     "engines": [
         {"name": "E2 textspace", "path": "pgmc/src/props/c05.rs pgmc/src/props/c06.rs pgmc/src/props/c19.rs", "serves_properties": [i for i in C if C[i]["engine"].startswith("E2")],
          "kind_free_text": "DFS over byte / token / line strings; real parser on every string; AST, recogniser, compositionality and fold oracles"},
+        {"name": "E3 tracespace", "path": "pgmc/src/props/e3.rs pgmc/src/props/c16.rs", "serves_properties": [i for i in C if C[i]["engine"].startswith("E3")],
+         "kind_free_text": "DFS over trace texts, typed traces and descriptor strings; real code in every state; text / typed / descriptor models"},
         {"name": "E4 bytefault", "path": "pgmc/src/props/e4.rs", "serves_properties": [i for i in C if C[i]["engine"].startswith("E4")],
          "kind_free_text": "crash-point / corruption enumeration over cache files with an explicit deviation bound; real parser + queries on every faulted buffer"},
         {"name": "E1 mapspace", "path": "pgmc/src/e1.rs", "serves_properties": [i for i in C if C[i]["engine"].startswith("E1")],
